@@ -257,10 +257,10 @@ def reqNumbers : Prods :=
    ("shortcut_start", ["numerical_phrase"]),
    ("shortcut_sequence", ["shortcut_start", "NUM_REPEAT"]), ("shortcut_sequence", ["shortcut_start", "REPEAT"]),
    ("shortcut_sequence", ["shortcut_start", "NUM_MULTIPLY"]),
-   ("shortcut_sequence", ["shortcut_start", "NUM_INTERPOLATE", "padding", "number_phrase"]),
-   ("shortcut_sequence", ["shortcut_start", "INTERPOLATE", "padding", "number_phrase"]),
-   ("shortcut_sequence", ["shortcut_start", "NUM_LOG_INTERPOLATE", "padding", "number_phrase"]),
-   ("shortcut_sequence", ["shortcut_start", "LOG_INTERPOLATE", "padding", "number_phrase"]),
+   ("shortcut_sequence", ["shortcut_start", "NUM_INTERPOLATE", "padding", "numerical_phrase"]),
+   ("shortcut_sequence", ["shortcut_start", "INTERPOLATE", "padding", "numerical_phrase"]),
+   ("shortcut_sequence", ["shortcut_start", "NUM_LOG_INTERPOLATE", "padding", "numerical_phrase"]),
+   ("shortcut_sequence", ["shortcut_start", "LOG_INTERPOLATE", "padding", "numerical_phrase"]),
    ("shortcut_sequence", ["NUM_JUMP"]), ("shortcut_sequence", ["JUMP"]),
    ("shortcut_phrase", ["shortcut_sequence"]), ("shortcut_phrase", ["shortcut_sequence", "padding"]),
    ("number_sequence", ["numerical_phrase"]), ("number_sequence", ["shortcut_phrase"]),
@@ -296,7 +296,7 @@ theorem shortcut_phrase_of_seq {w : List String} (h : Der P "shortcut_sequence" 
   wrap_der (fun _ h => hP (reqPadding_sub_numbers h)) (hP (by decide)) (hP (by decide)) h g hok
 
 /-- one entry with its trailing gap is a `numerical_phrase` or a `shortcut_phrase` -/
-theorem entry_der (e : Entry) (g : Gap) (hwf : e.WF = true) (hnz : e.interpEndNonzero = true) (hok : g.ok = true) :
+theorem entry_der (e : Entry) (g : Gap) (hwf : e.WF = true) (hok : g.ok = true) :
     Der P "numerical_phrase" (e.classes ++ g.cls) ∨ Der P "shortcut_phrase" (e.classes ++ g.cls) := by
   have hpad : reqPadding ⊆ P := fun _ h => hP (reqPadding_sub_numbers h)
   cases e with
@@ -328,46 +328,44 @@ theorem entry_der (e : Entry) (g : Gap) (hwf : e.WF = true) (hnz : e.interpEndNo
     simp [Entry.WF] at hwf
     have hg1 := (req_split hwf.1).1
     obtain ⟨hg2, hg2ne⟩ := req_split hwf.2
-    have hbz : b.zero = false := by simpa [Entry.interpEndNonzero] using hnz
     have hs := shortcut_start_der hP a g1 hg1
     have hp := pad_der hpad g2 hg2 hg2ne
-    have hb : Der P "number_phrase" ["NUMBER"] := number_phrase_der hP [] (by decide)
+    have hb : Der P "numerical_phrase" [b.cls] := numerical_phrase_der hP b [] (by decide)
     cases c <;> cases lg
     · exact (shortcut_phrase_of_seq hP (Der.rule (hP (by decide :
-        ("shortcut_sequence", ["shortcut_start", "INTERPOLATE", "padding", "number_phrase"]) ∈ reqNumbers))
-        (.nt hs (.tok (.nt hp (.nt hb .nil))))) g hok).cast (by simp [Entry.classes, Num.cls, hbz])
+        ("shortcut_sequence", ["shortcut_start", "INTERPOLATE", "padding", "numerical_phrase"]) ∈ reqNumbers))
+        (.nt hs (.tok (.nt hp (.nt hb .nil))))) g hok).cast (by simp [Entry.classes, Gap.cls])
     · exact (shortcut_phrase_of_seq hP (Der.rule (hP (by decide :
-        ("shortcut_sequence", ["shortcut_start", "LOG_INTERPOLATE", "padding", "number_phrase"]) ∈ reqNumbers))
-        (.nt hs (.tok (.nt hp (.nt hb .nil))))) g hok).cast (by simp [Entry.classes, Num.cls, hbz])
+        ("shortcut_sequence", ["shortcut_start", "LOG_INTERPOLATE", "padding", "numerical_phrase"]) ∈ reqNumbers))
+        (.nt hs (.tok (.nt hp (.nt hb .nil))))) g hok).cast (by simp [Entry.classes, Gap.cls])
     · exact (shortcut_phrase_of_seq hP (Der.rule (hP (by decide :
-        ("shortcut_sequence", ["shortcut_start", "NUM_INTERPOLATE", "padding", "number_phrase"]) ∈ reqNumbers))
-        (.nt hs (.tok (.nt hp (.nt hb .nil))))) g hok).cast (by simp [Entry.classes, Num.cls, hbz])
+        ("shortcut_sequence", ["shortcut_start", "NUM_INTERPOLATE", "padding", "numerical_phrase"]) ∈ reqNumbers))
+        (.nt hs (.tok (.nt hp (.nt hb .nil))))) g hok).cast (by simp [Entry.classes, Gap.cls])
     · exact (shortcut_phrase_of_seq hP (Der.rule (hP (by decide :
-        ("shortcut_sequence", ["shortcut_start", "NUM_LOG_INTERPOLATE", "padding", "number_phrase"]) ∈ reqNumbers))
-        (.nt hs (.tok (.nt hp (.nt hb .nil))))) g hok).cast (by simp [Entry.classes, Num.cls, hbz])
+        ("shortcut_sequence", ["shortcut_start", "NUM_LOG_INTERPOLATE", "padding", "numerical_phrase"]) ∈ reqNumbers))
+        (.nt hs (.tok (.nt hp (.nt hb .nil))))) g hok).cast (by simp [Entry.classes, Gap.cls])
 
-theorem entries_elem (es : Entries) (hwf : es.WF = true) (hnz : es.interpEndNonzero = true) :
+theorem entries_elem (es : Entries) (hwf : es.WF = true) :
     ∀ eg ∈ es, ∃ Y, ("number_sequence", [Y]) ∈ P ∧ ("number_sequence", ["number_sequence", Y]) ∈ P ∧
       Der P Y (eg.1.classes ++ eg.2.cls) := by
   intro eg hmem
   have h1 : eg.1.WF = true ∧ eg.2.ok = true := by
     have := (List.all_eq_true.mp hwf) eg hmem
     simpa using this
-  have h2 : eg.1.interpEndNonzero = true := (List.all_eq_true.mp hnz) eg hmem
-  rcases entry_der hP eg.1 eg.2 h1.1 h2 h1.2 with h | h
+  rcases entry_der hP eg.1 eg.2 h1.1 h1.2 with h | h
   · exact ⟨"numerical_phrase", hP (by decide), hP (by decide), h⟩
   · exact ⟨"shortcut_phrase", hP (by decide), hP (by decide), h⟩
 
 /-- a non-empty sequence of entries is a `number_sequence` -/
-theorem entries_der (es : Entries) (hne : es ≠ []) (hwf : es.WF = true) (hnz : es.interpEndNonzero = true) :
+theorem entries_der (es : Entries) (hne : es ≠ []) (hwf : es.WF = true) :
     Der P "number_sequence" es.classes :=
-  leftrec (fun eg : Entry × Gap => eg.1.classes ++ eg.2.cls) es hne (entries_elem hP es hwf hnz)
+  leftrec (fun eg : Entry × Gap => eg.1.classes ++ eg.2.cls) es hne (entries_elem hP es hwf)
 
 /-- … and extends any `number_sequence` on its left -/
-theorem entries_snoc (es : Entries) (hwf : es.WF = true) (hnz : es.interpEndNonzero = true) {w : List String}
+theorem entries_snoc (es : Entries) (hwf : es.WF = true) {w : List String}
     (h : Der P "number_sequence" w) : Der P "number_sequence" (w ++ es.classes) :=
   leftrec_snoc (fun eg : Entry × Gap => eg.1.classes ++ eg.2.cls) es w h (fun eg hm => by
-    obtain ⟨Y, _, h2, hy⟩ := entries_elem hP es hwf hnz eg hm; exact ⟨Y, h2, hy⟩)
+    obtain ⟨Y, _, h2, hy⟩ := entries_elem hP es hwf eg hm; exact ⟨Y, h2, hy⟩)
 
 end numbers
 
@@ -495,20 +493,19 @@ section cell
 variable (hP : reqCell ⊆ P)
 include hP
 
-theorem pval_der (v : PVal) (hwf : v.WF = true) (hnz : v.interpEndNonzero = true) :
+theorem pval_der (v : PVal) (hwf : v.WF = true) :
     Der P "number_sequence" v.classes := by
   have hnum : reqNumbers ⊆ P := fun _ h => hP (reqNumbers_sub_cell h)
   have hpad : reqPadding ⊆ P := fun _ h => hP (reqPadding_sub_cell h)
   cases v with
   | nums es =>
     simp [PVal.WF] at hwf
-    exact entries_der hnum es hwf.2 hwf.1 (by simpa [PVal.interpEndNonzero] using hnz)
+    exact entries_der hnum es hwf.2 hwf.1
   | numsParen es inner after =>
     simp [PVal.WF] at hwf
-    simp [PVal.interpEndNonzero] at hnz
     obtain ⟨⟨⟨⟨h1, h2⟩, h3⟩, h4⟩, h5⟩ := hwf
-    have he := entries_der hnum es h2 h1 hnz.1
-    have hi := entries_der hnum inner h4 h3 hnz.2
+    have he := entries_der hnum es h2 h1
+    have hi := entries_der hnum inner h4 h3
     by_cases hg : after = []
     · subst hg
       exact (Der.rule (hP (by decide : ("number_sequence", ["number_sequence", "(", "number_sequence", ")"]) ∈ reqCell))
@@ -518,9 +515,8 @@ theorem pval_der (v : PVal) (hwf : v.WF = true) (hnz : v.interpEndNonzero = true
         (.nt he (.tok (.nt hi (.tok (.nt hp .nil)))))).cast (by simp [PVal.classes])
   | paren inner after =>
     simp [PVal.WF] at hwf
-    simp [PVal.interpEndNonzero] at hnz
     obtain ⟨⟨h3, h4⟩, h5⟩ := hwf
-    have hi := entries_der hnum inner h4 h3 hnz
+    have hi := entries_der hnum inner h4 h3
     by_cases hg : after = []
     · subst hg
       exact (Der.rule (hP (by decide : ("number_sequence", ["(", "number_sequence", ")"]) ∈ reqCell))
@@ -530,7 +526,6 @@ theorem pval_der (v : PVal) (hwf : v.WF = true) (hnz : v.interpEndNonzero = true
         (.tok (.nt hi (.tok (.nt hp .nil))))).cast (by simp [PVal.classes])
   | lattice a b g1 c d g2 e f g3 us =>
     simp [PVal.WF] at hwf
-    simp [PVal.interpEndNonzero] at hnz
     obtain ⟨⟨⟨⟨h1, h2⟩, h3⟩, h4⟩, _⟩ := hwf
     have k1 := (req_split h1).1
     have k2 := (req_split h2).1
@@ -551,25 +546,24 @@ theorem pval_der (v : PVal) (hwf : v.WF = true) (hnz : v.interpEndNonzero = true
     have s5 : Der P "number_sequence"
         ([a.cls, ":", b.cls] ++ g1.cls ++ [c.cls, ":", d.cls] ++ g2.cls ++ [e.cls, ":", f.cls] ++ g3.cls) :=
       (Der.rule rcolon (.nt s4 (.tok (.nt (numerical_phrase_der hnum f g3 k3) .nil)))).cast (by simp)
-    exact (entries_snoc hnum us h4 hnz s5).cast (by simp [PVal.classes])
+    exact (entries_snoc hnum us h4 s5).cast (by simp [PVal.classes])
 
-theorem cellparam_der (p : CellParam) (hwf : p.WF = true) (hnz : p.val.interpEndNonzero = true) :
+theorem cellparam_der (p : CellParam) (hwf : p.WF = true) :
     Der P "parameter" p.classes := by
   have hcl : reqClassifier ⊆ P := fun _ h => hP (reqClassifier_sub_cell h)
   simp [CellParam.WF] at hwf
   obtain ⟨⟨h1, h2⟩, h3⟩ := hwf
   exact (Der.rule (hP (by decide : ("parameter", ["classifier", "param_seperator", "number_sequence"]) ∈ reqCell))
-    (.nt (classifier_der hcl p.key h1) (.nt (sep_der hcl p.sep h2) (.nt (pval_der hP p.val h3 hnz) .nil)))).cast
+    (.nt (classifier_der hcl p.key h1) (.nt (sep_der hcl p.sep h2) (.nt (pval_der hP p.val h3) .nil)))).cast
     (by simp [CellParam.classes])
 
-theorem cellparams_der (ps : List CellParam) (hne : ps ≠ []) (hwf : ps.all CellParam.WF = true)
-    (hnz : ps.all (fun p => p.val.interpEndNonzero) = true) : Der P "parameters" (ps.flatMap CellParam.classes) :=
+theorem cellparams_der (ps : List CellParam) (hne : ps ≠ []) (hwf : ps.all CellParam.WF = true) : Der P "parameters" (ps.flatMap CellParam.classes) :=
   leftrec CellParam.classes ps hne (fun p hm =>
     ⟨"parameter", hP (by decide), hP (by decide),
-      cellparam_der hP p ((List.all_eq_true.mp hwf) p hm) ((List.all_eq_true.mp hnz) p hm)⟩)
+      cellparam_der hP p ((List.all_eq_true.mp hwf) p hm)⟩)
 
 /-- every well-formed cell card of G derives from `cell` -/
-theorem cell_der (c : CellCard) (hwf : c.WF = true) (hnz : c.interpEndNonzero = true) : Der P "cell" c.classes := by
+theorem cell_der (c : CellCard) (hwf : c.WF = true) : Der P "cell" c.classes := by
   have hgeo : reqGeometry ⊆ P := fun _ h => hP (reqGeometry_sub_cell h)
   have hnum : reqNumbers ⊆ P := fun _ h => hP (reqNumbers_sub_cell h)
   have hpad : reqPadding ⊆ P := fun _ h => hP (reqPadding_sub_cell h)
@@ -606,7 +600,7 @@ theorem cell_der (c : CellCard) (hwf : c.WF = true) (hnz : c.interpEndNonzero = 
     · have hl := pad_der hpad c.lead hlead hle
       exact (Der.rule (hP (by decide : ("cell", ["padding", "identifier_phrase", "material", "geometry_expr"]) ∈ reqCell))
         (.nt hl (.nt hid (.nt hm (.nt hgeo' .nil))))).cast (by simp [hpe])
-  · have hpar := cellparams_der hP c.params hpe (by simpa using hps) (by simpa [CellCard.interpEndNonzero] using hnz)
+  · have hpar := cellparams_der hP c.params hpe (by simpa using hps)
     by_cases hle : c.lead = []
     · exact (Der.rule (hP (by decide : ("cell", ["identifier_phrase", "material", "geometry_expr", "parameters"]) ∈ reqCell))
         (.nt hid (.nt hm (.nt hgeo' (.nt hpar .nil))))).cast (by simp [hle, Gap.cls])
@@ -634,7 +628,7 @@ variable (hP : reqSurface ⊆ P)
 include hP
 
 /-- every well-formed surface card of G derives from `surface` -/
-theorem surface_der (s : SurfaceCard) (hwf : s.WF = true) (hnz : s.constants.interpEndNonzero = true) :
+theorem surface_der (s : SurfaceCard) (hwf : s.WF = true) :
     Der P "surface" s.classes := by
   have hnum : reqNumbers ⊆ P := fun _ h => hP (reqNumbers_sub_surface h)
   have hpad : reqPadding ⊆ P := fun _ h => hP (reqPadding_sub_surface h)
@@ -648,7 +642,7 @@ theorem surface_der (s : SurfaceCard) (hwf : s.WF = true) (hnz : s.constants.int
         (by simp)
   obtain ⟨hg1ok, hg1ne⟩ := req_split hg1
   have hp1 := pad_der hpad s.g1 hg1ok hg1ne
-  have hseq := entries_der hnum s.constants hcne hcs hnz
+  have hseq := entries_der hnum s.constants hcne hcs
   cases hpt : s.pointer with
   | none =>
     by_cases hle : s.lead = []
@@ -744,7 +738,7 @@ section data
 variable (hP : reqData ⊆ P)
 include hP
 
-theorem data_der (d : DataCard) (hwf : d.WF = true) (hnz : d.interpEndNonzero = true)
+theorem data_der (d : DataCard) (hwf : d.WF = true)
     (hplain : DataCard.isPlain d = true) : Der P "data_input" d.classes := by
   have hin : reqIntro ⊆ P := fun _ h => hP (reqIntro_sub_data h)
   have hnum : reqNumbers ⊆ P := fun _ h => hP (reqNumbers_sub_data h)
@@ -753,7 +747,6 @@ theorem data_der (d : DataCard) (hwf : d.WF = true) (hnz : d.interpEndNonzero = 
   cases body with
   | numbers kw es =>
     simp [DataCard.WF] at hwf
-    simp [DataCard.interpEndNonzero] at hnz
     obtain ⟨⟨⟨hl, hg⟩, hc⟩, ⟨hes, hkw⟩, _⟩ := hwf
     have hintro : ∃ wi, Der P "introduction" wi ∧
         (DataCard.mk lead c g0 (.numbers kw es)).classes = wi ++ es.classes := by
@@ -769,7 +762,7 @@ theorem data_der (d : DataCard) (hwf : d.WF = true) (hnz : d.interpEndNonzero = 
     · subst hee
       exact (Der.rule (hP (by decide : ("data_input", ["introduction"]) ∈ reqData)) (.nt hi .nil)).cast
         (by simp [Entries.classes])
-    · have hseq := entries_der hnum es hee hes hnz
+    · have hseq := entries_der hnum es hee hes
       have hd : Der P "data" es.classes :=
         (Der.rule (hP (by decide : ("data", ["number_sequence"]) ∈ reqData)) (.nt hseq .nil)).cast (by simp)
       exact (Der.rule (hP (by decide : ("data_input", ["introduction", "data"]) ∈ reqData)) (.nt hi (.nt hd .nil))).cast
@@ -816,8 +809,7 @@ section material
 variable (hP : reqMaterial ⊆ P)
 include hP
 
-theorem matparam_der (p : MatParam) (hwf : p.WF = true)
-    (hnz : (match p.val with | .nums es => es.interpEndNonzero | _ => true) = true) :
+theorem matparam_der (p : MatParam) (hwf : p.WF = true) :
     Der P "parameter" p.classes := by
   have hcl : reqClassifier ⊆ P := fun _ h => hP (reqClassifier_sub_material h)
   have hnum : reqNumbers ⊆ P := fun _ h => hP (reqNumbers_sub_material h)
@@ -833,20 +825,18 @@ theorem matparam_der (p : MatParam) (hwf : p.WF = true)
     exact (Der.rule (hP (by decide : ("parameter", ["classifier", "param_seperator", "text_phrase"]) ∈ reqMaterial))
       (.nt (classifier_der hcl key h1) (.nt (sep_der hcl sep h2) (.nt ht .nil)))).cast (by simp [MatParam.classes])
   | nums es =>
-    simp at h3 hnz
-    have hs := entries_der hnum es h3.2 h3.1 hnz
+    simp at h3
+    have hs := entries_der hnum es h3.2 h3.1
     exact (Der.rule (hP (by decide : ("parameter", ["classifier", "param_seperator", "number_sequence"]) ∈ reqMaterial))
       (.nt (classifier_der hcl key h1) (.nt (sep_der hcl sep h2) (.nt hs .nil)))).cast (by simp [MatParam.classes])
 
 theorem material_der (lead : Gap) (c : Classifier) (g0 : Gap) (fr : List (String × Gap × Num × Gap))
-    (ps : List MatParam) (hwf : (DataCard.mk lead c g0 (.material fr ps)).WF = true)
-    (hnz : (DataCard.mk lead c g0 (.material fr ps)).interpEndNonzero = true) :
+    (ps : List MatParam) (hwf : (DataCard.mk lead c g0 (.material fr ps)).WF = true) :
     Der P "material" (DataCard.mk lead c g0 (.material fr ps)).classes := by
   have hin : reqIntro ⊆ P := fun _ h => hP (reqIntro_sub_material h)
   have hnum : reqNumbers ⊆ P := fun _ h => hP (reqNumbers_sub_material h)
   have hpad : reqPadding ⊆ P := fun _ h => hP (reqPadding_sub_material h)
   simp [DataCard.WF] at hwf
-  simp [DataCard.interpEndNonzero] at hnz
   obtain ⟨⟨⟨hl, hg⟩, hc⟩, ⟨⟨hne, _⟩, hfr⟩, hps⟩ := hwf
   have hi := intro_der hin lead c g0 hl hc hg
   have hfrs : Der P "isotope_fractions"
@@ -869,7 +859,7 @@ theorem material_der (lead : Gap) (c : Classifier) (g0 : Gap) (fr : List (String
       (.nt hi (.nt hiso .nil))).cast (by simp [DataCard.classes])
   · have hpar : Der P "parameters" (ps.flatMap MatParam.classes) :=
       leftrec MatParam.classes ps hpe (fun p hm =>
-        ⟨"parameter", hP (by decide), hP (by decide), matparam_der hP p (hps p hm) (hnz p hm)⟩)
+        ⟨"parameter", hP (by decide), hP (by decide), matparam_der hP p (hps p hm)⟩)
     exact (Der.rule (hP (by decide : ("material", ["introduction", "isotopes", "parameters"]) ∈ reqMaterial))
       (.nt hi (.nt hiso (.nt hpar .nil)))).cast (by simp [DataCard.classes])
 
